@@ -27,6 +27,7 @@ var (
 	errInvalidMagicIdentifier          = DecodeError("invalid magic identifier")
 	errInvalidMetadataChunkLength      = DecodeError("invalid metadata chunk length")
 	errInvalidMetadataIdentifier       = DecodeError("invalid metadata identifier")
+	errInvalidMetadataIdentifierOrder  = DecodeError("metadata identifiers not in increasing order")
 	errInvalidNumber                   = DecodeError("invalid number")
 	errInvalidNumberOfMetadataChunks   = DecodeError("invalid number of metadata chunks")
 	errInvalidSuggestedPalette         = DecodeError("invalid suggested palette")
@@ -116,7 +117,16 @@ func decode(dst ivg.Destination, p printer, m *ivg.Metadata, metadataOnly bool, 
 	}
 	src = src[n:]
 
+	prevMID := int64(-1)
 	for ; nMetadataChunks > 0; nMetadataChunks-- {
+		// Chunks must be presented in increasing MID order; MIDs cannot be
+		// repeated.
+		if mid, ok := peekMetadataIdentifier(src); ok {
+			if int64(mid) <= prevMID {
+				return errInvalidMetadataIdentifierOrder
+			}
+			prevMID = int64(mid)
+		}
 		src, err = decodeMetadataChunk(p, m, src)
 		if err != nil {
 			return err
@@ -140,6 +150,18 @@ func decode(dst ivg.Destination, p printer, m *ivg.Metadata, metadataOnly bool, 
 		}
 	}
 	return nil
+}
+
+// peekMetadataIdentifier returns the MID of the metadata chunk at the start of
+// src without consuming anything. It returns false if the chunk is cut short;
+// decodeMetadataChunk reports the error in that case.
+func peekMetadataIdentifier(src buffer) (mid uint32, ok bool) {
+	_, n := src.decodeNatural()
+	if n == 0 {
+		return 0, false
+	}
+	mid, n = src[n:].decodeNatural()
+	return mid, n != 0
 }
 
 func decodeMetadataChunk(p printer, m *ivg.Metadata, src buffer) (src1 buffer, err error) {
